@@ -191,6 +191,18 @@ where
         let mut num_fixed_columns = [0u8; 4];
         reader.read_exact(&mut num_fixed_columns)?;
         let num_fixed_columns = u32::from_le_bytes(num_fixed_columns);
+        // One commitment per fixed column, the selectors being converted to fixed
+        // columns (see `keygen_vk`).
+        let expected_fixed_columns = cs.num_fixed_columns + cs.num_selectors;
+        if num_fixed_columns as usize != expected_fixed_columns {
+            return Err(io::Error::new(
+                io::ErrorKind::InvalidData,
+                format!(
+                    "number of fixed commitments: {} does not match the circuit: {}",
+                    num_fixed_columns, expected_fixed_columns
+                ),
+            ));
+        }
 
         let fixed_commitments: Vec<_> = (0..num_fixed_columns)
             .map(|_| CS::Commitment::read(reader, format))
